@@ -8,6 +8,8 @@ CONSTANTS
   Mode = "periodic"
   H = 1
   N = 0
+  PerRecordSweep = FALSE
+  SnapshotSweep = FALSE
   Target = "all"
 SPECIFICATION Spec
 INVARIANTS TypeOK Consistent FIFO SweptInTime
